@@ -9,18 +9,19 @@ import (
 )
 
 // Value is one of:
-//   *smt.Term            bool / integer scalar (constant terms are the concrete case)
-//   FloatV               concrete float
-//   ComplexV             concrete complex
-//   StrV                 string with concrete length, per-byte terms
-//   PtrV                 pointer (nil: C==nil)
-//   SliceV               slice  (nil: Arr==nil)
-//   *MapObj              map    (nil pointer = nil map)
-//   IfaceV               interface value (nil: T==nil)
-//   *FuncV               closure / function / bound method (nil pointer = nil func)
-//   AggV                 struct / array / tuple value
-//   *ChanObj             channel
-//   *IterV               range iterator
+//
+//	*smt.Term            bool / integer scalar (constant terms are the concrete case)
+//	FloatV               concrete float
+//	ComplexV             concrete complex
+//	StrV                 string with concrete length, per-byte terms
+//	PtrV                 pointer (nil: C==nil)
+//	SliceV               slice  (nil: Arr==nil)
+//	*MapObj              map    (nil pointer = nil map)
+//	IfaceV               interface value (nil: T==nil)
+//	*FuncV               closure / function / bound method (nil pointer = nil func)
+//	AggV                 struct / array / tuple value
+//	*ChanObj             channel
+//	*IterV               range iterator
 type Value interface{}
 
 type FloatV float64
@@ -49,7 +50,7 @@ type IfaceV struct {
 type FuncV struct {
 	Fn      *ssa.Function
 	Env     []Value
-	Builtin string  // non-empty: engine-native function
+	Builtin string // non-empty: engine-native function
 	Native  func(ex *Exec, args []Value) Value
 }
 
